@@ -27,6 +27,7 @@ import numpy as np
 from mc import core, ref, seams
 
 PROPERTY = 'C08'
+GUARD = ['numqi.gate._pauli']  # argument-immutability oracle (mc.seams.ImmutabilityGuard)
 LEVEL = 'model_checking'
 RULE = ('state = one (element, start representation) of the phased Pauli group / one ordered pair / one batch layout / one '
         'property-access history / one generator answer; all 4^(n+1) elements, all ordered pairs, all conversion paths of '
